@@ -186,6 +186,22 @@ func init() {
 				}
 			}
 		}
+		// both escapes in ONE literal segment (an escaped opener, later a backslash + live tag)
+		for _, w := range wrappers {
+			for _, t := range [][2]string{
+				{"\\<%\\\\<%= 7 %>", "<%\\7"}, {"a\\<%b\\<%c\\\\<%= 1 %>d\\<%", "a<%b<%c\\1d<%"}, {"\\\\<%= 1 %>\\<%\\\\<%= 2 %>", "\\1<%\\2"},
+				{"x\\<% y \\\\<% let q = 1 %>z\\<%", "x<% y \\z<%"}, {"\\<%\\<%\\\\<%= 3 %>\\\\<%= 4 %>", "<%<%\\3\\4"},
+			} {
+				tmpl := w.pre + t[0] + w.post
+				exp := w.wpre + t[1] + w.wpost
+				c := RCase{Tmpl: tmpl, Binds: []Bind{{"blk", vGo(103)}}}
+				o := e.addRenderCase("both-escapes", c)
+				e.Distinct("b/" + tmpl)
+				if o.Class != "OK" || o.Out != exp {
+					e.Violate("c02-concat", fmt.Sprintf("%q rendered %q (%s %s), want %q", tmpl, o.Out, o.Class, o.Msg, exp), map[string]interface{}{"case": c, "observed": o})
+				}
+			}
+		}
 		// a silent tag producing HTML inside a block (F6)
 		for _, tmpl := range []string{`<%= if (true) { %>a<% raw("<b>") %>c<% } %>`, `<%= for (x) in [1] { %>a<% mkhtml("<b>") %>c<% } %>`} {
 			c := RCase{Tmpl: tmpl, Binds: []Bind{{"mkhtml", vGo(102)}}}
